@@ -18,6 +18,7 @@ import (
 
 	"verif/harness/refpkg"
 	"verif/harness/rt"
+	"verif/harness/srv"
 )
 
 // C07 — incomplete package data is always reported as "not enough bytes".
@@ -400,6 +401,7 @@ func c07ChannelLeg(c *Ctx, encs []c07Enc) {
 	const (
 		modeLogical = 1
 		modeDebug   = 2
+		modePrelude = 4 // a complete earlier response was received and consumed on the channel first
 	)
 	log.SetOutput(io.Discard)
 	var deliverMode func(parts [][]byte, status []byte, sendAfter, mode int) (delivered, bool)
@@ -441,6 +443,19 @@ func c07ChannelLeg(c *Ctx, encs []c07Enc) {
 			hooks = append(hooks, fmt.Sprintf("hook:eed(%d)", e.MsgNumber))
 			hmu.Unlock()
 		})
+		if mode&modePrelude != 0 {
+			first := append(srv.ReturnStatus(77), srv.Done(srv.TokDone, srv.DoneCount, 0, 1)...)
+			k.tr.Feed(xport.Packet(byte(tds.TDS_BUF_RESPONSE), xport.EOM, chanID, first))
+			if !awaitIdle(k.tr, 30*time.Second) {
+				return delivered{}, false
+			}
+			if d := drainChannel(k.ch, k.ctx); len(d.Dumps) != 3 || len(d.Errs) != 0 {
+				return delivered{}, false
+			}
+			hmu.Lock()
+			hooks = nil
+			hmu.Unlock()
+		}
 		var last delivered
 		for i, m := range parts {
 			if i > 0 && status[i-1]&xport.EOM != 0 {
@@ -521,7 +536,7 @@ func c07ChannelLeg(c *Ctx, encs []c07Enc) {
 		r.Count("channel_leg_continuation_cases", 1)
 		if len(got2.Errs) == 0 && sameStrings(got2.Dumps, ref.Dumps) && j.k%2 == 1 {
 			// ... and on a logical channel / with the package debug log on
-			mode := []int{modeLogical, modeDebug, modeLogical | modeDebug}[(j.k/2)%3]
+			mode := []int{modeLogical, modeDebug, modeLogical | modeDebug, modePrelude, modePrelude | modeLogical}[(j.k/2)%5]
 			rt.CaseLog("C07 channel %s k=%d mode=%d hex=%s", j.e.cs.Type, j.k, mode, hex.EncodeToString(j.e.X))
 			r.Eval(1)
 			got4, good4 := deliverMode([][]byte{full[:j.k], full[j.k:]}, []byte{0, xport.EOM}, -1, mode)
@@ -531,9 +546,9 @@ func c07ChannelLeg(c *Ctx, encs []c07Enc) {
 			}
 			r.Count(fmt.Sprintf("channel_leg_mode_%d_cases", mode), 1)
 			if len(got4.Errs) > 0 || !sameStrings(got4.Dumps, ref.Dumps) {
-				what := []string{"", "on a logical channel", "with Info.DebugLogPackages on", "on a logical channel with Info.DebugLogPackages on"}[mode]
+				what := map[int]string{modeLogical: "on a logical channel", modeDebug: "with Info.DebugLogPackages on", modeLogical | modeDebug: "on a logical channel with Info.DebugLogPackages on", modePrelude: "as the second response on the channel", modePrelude | modeLogical: "as the second response on a logical channel"}[mode]
 				rec := c07CaseRec{Type: j.e.cs.Type, Variant: j.e.cs.Variant, Opt: j.e.cs.Opt, Source: "channel-continuation", K: j.k, Hex: hex.EncodeToString(j.e.X), Ref: j.e.cs.Ref}
-				r.Violate("channel/"+j.e.cs.Type+"/retried-after-truncated-attempt-differs/"+[]string{"", "logical-channel", "debug-log", "logical-channel+debug-log"}[mode], fmt.Sprintf("a %s of %d bytes + final DONE sent %s as packet 1 = first %d bytes (no EOM), packet 2 = the rest: delivered %v errors %v; on channel 0 in one packet: %v", j.e.cs.Type, len(j.e.X), what, j.k, got4.Types, got4.Errs, ref.Types), rec)
+				r.Violate("channel/"+j.e.cs.Type+"/retried-after-truncated-attempt-differs/"+map[int]string{modeLogical: "logical-channel", modeDebug: "debug-log", modeLogical | modeDebug: "logical-channel+debug-log", modePrelude: "second-response", modePrelude | modeLogical: "second-response+logical-channel"}[mode], fmt.Sprintf("a %s of %d bytes + final DONE sent %s as packet 1 = first %d bytes (no EOM), packet 2 = the rest: delivered %v errors %v; on channel 0 in one packet: %v", j.e.cs.Type, len(j.e.X), what, j.k, got4.Types, got4.Errs, ref.Types), rec)
 				return
 			}
 		}
